@@ -87,6 +87,28 @@ def bufferStep (bufSize : Nat) (buffer : List (Slot × List (Option Sentence))) 
       | none => none
     else some (assocSet buffer slot cur', none)
 
+/-- the reassembly core of both loops on already parsed AIS sentences (no wrapper, no tag block
+queue): single sentences pass, fragments go through the slot buffer; `none` = IndexError -/
+def coreStep (bufSize : Nat) (buffer : List (Slot × List (Option Sentence))) (s : Sentence) :
+    Option (List (Slot × List (Option Sentence)) × List Sentence) :=
+  if s.isSingle then some (buffer, [s])
+  else
+    match bufferStep bufSize buffer s with
+    | none => none
+    | some (buf, none) => some (buf, [])
+    | some (buf, some full) => some (buf, [full])
+
+/-- run the core over a list of sentences; one output list per input position (stops at an
+IndexError, which the returned flag reports) -/
+def coreRun (bufSize : Nat) : List (Slot × List (Option Sentence)) → List Sentence → List (List Sentence) × Bool
+  | _, [] => ([], true)
+  | buf, s :: rest =>
+    match coreStep bufSize buf s with
+    | none => ([], false)
+    | some (buf', out) =>
+      let (outs, ok) := coreRun bufSize buf' rest
+      (out :: outs, ok)
+
 /-- tag block queue side effect of both loops -/
 def addToTbq (k : AsmConsts) (st : AsmState) (s : Sentence) :
     Except Err (AsmState × List (List Sentence)) :=
